@@ -470,7 +470,7 @@ struct Exec {
 	template <class SizeT> void typedPrefixedElem(Actor& a, const std::string& elem, const char* st) {
 		std::string nm = std::string(st) + "/" + elem;
 		if (elem == "4") typedPrefixed<SizeT, std::vector<uint32_t>>(a, nm.c_str());
-		else if (elem == "s") typedPrefixed<SizeT, std::string>(a, nm.c_str());
+		else if (elem == "s") { if (a.pos & 1) typedPrefixed<SizeT, std::u16string>(a, (nm + "16").c_str()); else typedPrefixed<SizeT, std::string>(a, nm.c_str()); }
 		else typedPrefixed<SizeT, std::vector<uint8_t>>(a, nm.c_str());
 	}
 
@@ -479,8 +479,13 @@ struct Exec {
 		if (what == "fix") {
 			uint64_t sz = op.u("sz", 1);
 			if (sz == 1) typedFixed<uint8_t>(a); else if (sz == 2) typedFixed<uint16_t>(a); else if (sz == 4) typedFixed<uint32_t>(a); else typedFixed<uint64_t>(a);
-		} else if (what == "vec16") typedSized<std::vector<uint16_t>>(a, op, "vector<u16>");
-		else if (what == "str") typedSized<std::string>(a, op, "string");
+		} else if (what == "vec16") {
+			// the pre-sized container helper is a template: element types of 2, 4 and 8 bytes
+			switch (a.pos % 3) { case 0: typedSized<std::vector<uint16_t>>(a, op, "vector<u16>"); break; case 1: typedSized<std::vector<uint32_t>>(a, op, "vector<u32>"); break; default: typedSized<std::vector<uint64_t>>(a, op, "vector<u64>"); break; }
+		} else if (what == "str") {
+			// ... and so is the string helper: narrow and wide character types
+			switch (a.pos % 4) { case 0: case 1: typedSized<std::string>(a, op, "string"); break; case 2: typedSized<std::u16string>(a, op, "u16string"); break; default: typedSized<std::u32string>(a, op, "u32string"); break; }
+		}
 		else if (what == "cstr") typedCstr(a, op);
 		else if (what == "pfx") {
 			std::string st = op.get("st", "u8"), elem = op.get("elem", "1");
